@@ -43,7 +43,8 @@ def unary_events(D, src):
            "no_extend": da.dfa_no_extend, "remove_unreachable": da.dfa_remove_unreachable_states,
            "make_total": da.dfa_make_total}
     kinds = {"reverse": "nfa", "no_prefix": "nfa"}
-    for name in UNARY:
+    # first in the listed order, then once more in the opposite order on the SAME object (another history)
+    for name in UNARY + UNARY[::-1]:
         pre = ab.dfa(D)
         R, exc = guarded(lambda: fns[name](D))
         ev = {"op": "dfa_op", "name": name, "a": pre, "exc": exc, "reskind": kinds.get(name, "dfa"),
